@@ -111,7 +111,7 @@ def run_case(case):
     sample = {"spec": spec, "noise": {k: (np.round(np.asarray(v), 3).tolist() if k == "eff_noise_opers" else v) for k, v in nkw.items()},
               "dt": case["dt"], "krylov_tolerance": case["ktol"], "evaluation_times": times}
     try:
-        with e2e.recording(SVBackend) as rec, e2e.krylov_recording(max_dim=300) as kcalls:
+        with e2e.recording(SVBackend) as rec, e2e.krylov_recording(max_dim=1100) as kcalls:
             results = SVBackend(seq, config=cfg).run()
     except Exception as e:
         import traceback
@@ -138,9 +138,9 @@ def run_case(case):
         if not v:
             break
     v, w, c, states, hams = best
-    # in-situ Krylov contract (N <= 4: generator of dimension <= 256)
+    # in-situ Krylov contract (N <= 5: generator of dimension <= 1024)
     excess, known = 0.0, 0
-    if n <= 4:
+    if n <= 5:
         jumps = ref.local_jumps(snap["lindblad_ops"], n, 2)
         gens = [ref.liouvillian(H, jumps) for H in hams]
         excess, known, other = e2e.krylov_step_excess(kcalls, None, snap["target_times"], gens=gens)
@@ -149,7 +149,7 @@ def run_case(case):
             viol.append({"key": "C16:in-situ-krylov-step-inaccurate" if k_ >= 0 else "C16:solver-did-not-exponentiate-once-per-step",
                          "msg": f"{fp}: step {k_} local error {err_:.3e} with tolerance {tol_:.1e} ({len(kcalls)} calls, {nsteps} steps)"})
     if v and known:
-        v2, w2, c2 = e2e.compare_results(results, snap, states, hams, state_tol=tol + excess, obs_tol=tol + excess, is_density=True)
+        v2, w2, c2 = e2e.compare_results(results, snap, states, hams, state_tol=tol + excess, obs_tol=tol + 2 * excess, is_density=True)
         if not v2:
             viol.append({"key": "C16:krylov-early-stop-exceeds-tolerance", "msg": f"{fp}: {known} step(s) stopped by the optimistic estimate, local excess {excess:.3e}; first strict deviation {v[0][1]}"})
             v = []
